@@ -625,7 +625,11 @@ def writable_array(obj, **kwargs):
         if arr is not None and arr is not obj:
             # No need to write back if `obj` itself was modified; this also
             # avoids `obj[:]`, which fails for zero-dimensional arrays
-            obj[:] = arr
+            if isinstance(obj, np.ndarray):
+                # Also works for zero-dimensional arrays
+                obj[...] = arr
+            else:
+                obj[:] = arr
 
 
 def signature_string(posargs, optargs, sep=', ', mod='!r'):
